@@ -23,6 +23,9 @@ CHECK_DEADLOCK FALSE
 """
 
 
+_USED = [0]
+
+
 def used_object(a, dt):
     """an AccSignal that already held ANOTHER record of the same length whose durations / cumulative statistics were
     computed, and was then given `a` (history: results must describe the record the object holds now)"""
@@ -31,19 +34,28 @@ def used_object(a, dt):
     from eqsig import im
     n = len(a)
     other = np.concatenate([np.zeros(n - n // 2), np.asarray(a, dtype=float)[: n // 2][::-1] * 1.7 + 0.3])
+    _USED[0] += 1
+    if _USED[0] % 3 == 0 and n >= 4:
+        other = other[: max(2, n // 2)]          # the earlier record was SHORTER (or, below, longer) than the one it holds now
+    elif _USED[0] % 3 == 1:
+        other = np.concatenate([other, other[::-1] * 0.5])
     o = eqsig.AccSignal(other, dt)
     with warnings.catch_warnings():
         warnings.simplefilter("ignore")
         try:
+            _ = (o.time, o.npts)
             im.calc_sig_dur(o)
             o.generate_cumulative_stats()
             im.calc_brac_dur(o, 0.1)
+            im.calc_brac_dur(o, 0.0, se=True)
         except Exception:
             pass
-        if n % 2:
+        if n % 2 or len(other) != n:
             o.reset_values(np.array(a, dtype=float))
         else:
             o.add_series(np.asarray(a, dtype=float) - o.values)
+            if not np.array_equal(np.asarray(o.values, dtype=float), np.asarray(a, dtype=float)):
+                o.reset_values(np.array(a, dtype=float))       # other + (a - other) is not always a: the record must be exactly a
     return o
 
 
@@ -79,6 +91,9 @@ def sig(variant, a, dt, lo, hi, se=True):
             # a user-supplied cumulative measure that does NOT start at zero: the running sum of squares (must agree with
             # the array variant, whose cumulative series is the same)
             r = im.calc_sig_dur(mk(), start=lo, end=hi, im=as_callable(lambda s: np.cumsum(np.asarray(s.values, dtype=float) ** 2)), se=se)
+        elif variant == "signed":
+            # a user-supplied measure that is not monotone: the running sum of the samples (final value > 0 by construction)
+            r = im.calc_sig_dur(mk(), start=lo, end=hi, im=as_callable(lambda s: np.cumsum(np.asarray(s.values, dtype=float))), se=se)
         else:
             r = im.calc_sig_dur(mk(), start=lo, end=hi, im=as_callable(im.calc_cav), se=se)
     except IndexError:
@@ -118,11 +133,18 @@ def as_callable(fn):
     return _Measure(fn).evaluate
 
 
+_THR = [0]
+
+
 def brac(a, dt, thr):
     import eqsig
     from eqsig import im
     import warnings
-    s = eqsig.AccSignal(a, dt)
+    s = used_object(a, dt) if HISTORY["on"] else eqsig.AccSignal(a, dt)
+    if float(thr).is_integer() and 0 <= thr < 200:
+        # a whole-number threshold in the scalar types a caller may hand over (python int / float, numpy signed and unsigned)
+        _THR[0] += 1
+        thr = [float(thr), int(thr), np.uint8(thr), np.int64(thr), np.uint16(thr), np.float32(thr)][_THR[0] % 6]
     t0, t1 = im.calc_brac_dur(s, thr, se=True)
     with warnings.catch_warnings():
         warnings.simplefilter("ignore")
@@ -168,7 +190,13 @@ def build_traces(path, tier, seed):
         if i % 5 == 0:
             a = np.round(a / (np.max(np.abs(a)) + 1e-300) * 4)     # integer valued: exact ties with dyadic fractions
         dt = gen.dt(rng)
-        variant = ["vals", "arias", "cav", "cumsq"][i % 4]
+        variant = ["vals", "arias", "cav", "cumsq", "signed"][i % 5]
+        if variant == "signed":
+            a = np.asarray(a, dtype=float)
+            if not (np.sum(a) > 0):
+                a = -a
+            if not (np.cumsum(a)[-1] > 1e-6 * np.max(np.abs(np.cumsum(a)))):
+                variant = "cumsq"          # the total must be a meaningful reference for the fractions
         fsel = int(rng.integers(4))
         if fsel == 0:
             lo, hi = 0.05, 0.95
@@ -184,7 +212,7 @@ def build_traces(path, tier, seed):
             {"kind": "sig", "variant": variant, "n": n, "shape": shape, "dt": dt, "lo": lo, "hi": hi, "raised": bool(r), "t0": t0, "t1": t1})
         # laws (relation events)
         if r == 0 and i % 2 == 0:
-            alpha = float(2.0 ** rng.integers(-20, 20)) * (-1 if i % 4 else 1)
+            alpha = float(2.0 ** rng.integers(-20, 20)) * (-1 if (i % 4 and variant != "signed") else 1)     # (a signed measure has no sign symmetry)
             rs = sig(variant, a * alpha, dt, lo, hi)
             add({"kind": "rel", "law": "same", "clause": "ScaleInvariant", "dt": enc(dt), "k": 0, "x": enc_seq([t0, t1]), "y": enc_seq(rs[1:])},
                 {"kind": "rel", "law": "ScaleInvariant", "alpha": alpha, "variant": variant, "n": n})
@@ -221,7 +249,25 @@ def build_traces(path, tier, seed):
         ns, s0, s1, sd = brac(a * alpha, dt, thr * abs(alpha))
         add({"kind": "rel", "law": "same", "clause": "BracScaleTogether", "dt": enc(dt), "k": 0, "x": enc_seq([none, b0, b1, bd]), "y": enc_seq([ns, s0, s1, sd])},
             {"kind": "rel", "law": "BracScaleTogether", "alpha": alpha, "n": n})
+    # a non-monotone user-supplied measure whose oscillation crosses both fractions several times (the in-band samples are then
+    # not a single run: the first and the last of them are not the first crossing of one fraction and the last of the other)
     HISTORY["on"] = False
+    for j in range(24 if tier == "quick" else 160):
+        n = int(rng.integers(30, 300))
+        dt = gen.dt(rng)
+        t = np.arange(n)
+        P = float(rng.uniform(8, 60))
+        c = float(rng.uniform(0.02, 0.3))
+        a = np.sin(2 * np.pi * t / P + rng.uniform(0, 6.28)) * float(rng.uniform(0.5, 2.0)) + c + 0.05 * rng.standard_normal(n)
+        if not (np.sum(a) > 0):
+            a = a - np.mean(a) + c
+        lo = float(rng.uniform(0.05, 0.5))
+        hi = float(rng.uniform(lo + 0.1, 0.98))
+        r, t0, t1 = sig("signed", a, dt, lo, hi)
+        r2, d = sig("signed", a, dt, lo, hi, se=False)
+        add({"kind": "sig", "variant": "signed", "dt": enc(dt), "a": enc_seq(a), "lo": enc(lo), "hi": enc(hi), "raised": bool(r),
+             "t0": enc(t0), "t1": enc(t1), "dur": enc(d)},
+            {"kind": "sig", "variant": "signed", "n": n, "shape": "oscillating running sum", "dt": dt, "lo": lo, "hi": hi, "raised": bool(r), "t0": t0, "t1": t1})
     write_ndjson(path, recs)
     return meta
 
